@@ -15,10 +15,10 @@ class EngB:
         import threading
         s._vlock = threading.RLock()
 
-    def variant(s, tag, only=None, uf=None, uffunc=None, ubcheck=False):
+    def variant(s, tag, only=None, uf=None, uffunc=None, ubcheck=False, indirect=False):
       with s._vlock:
         if tag not in s.vars:
-            hp, bp, info = s.u.gen(tag, only=only, uf=uf, uffunc=uffunc, ubcheck=ubcheck)
+            hp, bp, info = s.u.gen(tag, only=only, uf=uf, uffunc=uffunc, ubcheck=ubcheck, indirect=indirect)
             s.vars[tag] = (hp, bp, info)
             s.chk.functions.update({k: '%d IR instructions' % v for k, v in info['functions'].items()})
             for k, v in info.get('skipped', {}).items():
